@@ -228,9 +228,36 @@ Proof.
   - destruct nk; auto. destruct (e_parent (elems s e)); auto. destruct (owner_has_key c s n k); auto.
     apply hk_rekey. reflexivity.
 Qed.
+Lemma hk_readd : forall s i p e, hk (fst (readd c s i p e)) = hk s.
+Proof. intros. unfold readd. destruct p; [apply hk_set_insert|apply hk_set_add]. Qed.
+Lemma hk_put_back_at : forall l s e, hk (fst (put_back_at c s e l)) = hk s.
+Proof.
+  induction l as [|[i p] r IH]; intros s e; simpl; auto. apply hk_bind; [apply hk_readd|].
+  intros s1 H. rewrite IH. exact H.
+Qed.
+Lemma hk_restore_at : forall l s e, hk (fst (restore_at c s e l)) = hk s.
+Proof.
+  induction l as [|[i p] r IH]; intros s e; simpl; auto. destruct (contains c s i e); [apply IH|].
+  apply hk_bind; [apply hk_readd|]. intros s1 H. rewrite IH. exact H.
+Qed.
 Lemma hk_set_semantic_id : forall s e m, hk (fst (set_semantic_id c s e m)) = hk s.
 Proof.
-  intros. unfold set_semantic_id. destruct (e_parent (elems s e)); auto. apply hk_rekey. reflexivity.
+  intros. unfold set_semantic_id. destruct (e_parent (elems s e)); auto.
+  assert (H := hk_take_out (owner_sets s n) s e []).
+  destruct (take_out c s e (owner_sets s n) []) as [[s1 lst] o1]. simpl in H.
+  assert (G : forall lp,
+     hk (fst (match put_back_at c (set_sem s1 e m) e lp with
+              | (s2, Err x) => match restore_at c (set_sem s2 e (e_sem (elems s e))) e lp with
+                               | (s3, Err y) => (s3, Err y) | (s3, _) => (s3, Err x) end
+              | (s2, _) => (set_sem s2 e m, Ok) end)) = hk s).
+  { intro lp. assert (H2 := hk_put_back_at lp (set_sem s1 e m) e).
+    destruct (put_back_at c (set_sem s1 e m) e lp) as [s2 o2]. simpl in H2.
+    assert (E2 : hk s2 = hk s) by (rewrite H2; exact H).
+    destruct o2; simpl; auto.
+    assert (H3 := hk_restore_at lp (set_sem s2 e (e_sem (elems s e))) e).
+    destruct (restore_at c (set_sem s2 e (e_sem (elems s e))) e lp) as [s3 o3]. simpl in H3.
+    destruct o3; simpl; rewrite H3; exact E2. }
+  destruct o1; simpl; auto; apply G.
 Qed.
 Lemma hk_owner_add : forall s o e, hk (fst (owner_add c s o e)) = hk s.
 Proof. intros. unfold owner_add. destruct (owner_sets s o); auto. apply hk_set_add. Qed.
